@@ -18,6 +18,7 @@ import CBV.Lemmas.C03Hist
 import CBV.Lemmas.C03Guards
 import CBV.Lemmas.C03Trans
 import CBV.Lemmas.C03Rev
+import CBV.Gen.TC03
 
 namespace CBV.C03
 
